@@ -2,7 +2,7 @@
   C15 helper lemmas, part 6: the listener model satisfies the listener specification
   (runs at one instant, no global limit, client rate 1 token/s).
 -/
-import MosVerif.Lemmas.LimiterSpec
+import MosVerif.Lemmas.LimiterClock
 namespace MosVerif.Limiter
 
 /-! ### the usage table -/
@@ -49,7 +49,7 @@ theorem Usage.get_add (c : Opts) (a a' : Addr) (dlo dhi : Nat) : ∀ (u : Usage)
 /-! ### the limiter at one instant -/
 
 /-- what the model knows that the observer does not: the exact cost charged per key -/
-def Charged (c : Opts) (cl : ClientLimiter) (used : Addr → Nat) : Prop :=
+def ChargedK (c : Opts) (cl : ClientLimiter) (used : Addr → Nat) : Prop :=
   ∀ k, used k ≤ specBurst c ∧
     (cl.bucketOf k).avail cl.limit cl.burst 0 = (((specBurst c - used k) * nano : Nat) : Int)
 
@@ -57,7 +57,7 @@ def Charged (c : Opts) (cl : ClientLimiter) (used : Addr → Nat) : Prop :=
 def Bracket (c : Opts) (used : Addr → Nat) (u : Usage) : Prop :=
   ∀ a, a ≠ .zero → (Usage.get c u a).1 ≤ used (mask c.setDefault a) ∧ used (mask c.setDefault a) ≤ (Usage.get c u a).2
 
-theorem charged_new (c : Opts) (hs : saneBurst c = true) : Charged c (ClientLimiter.new c) (fun _ => 0) := by
+theorem chargedK_new (c : Opts) (hs : saneBurst c = true) : ChargedK c (ClientLimiter.new c) (fun _ => 0) := by
   intro k
   refine ⟨Nat.zero_le _, ?_⟩
   rw [ClientLimiter.bucketOf_new, avail_fresh c _ _ 0 (new_limit c) (new_burst c) hs, new_burst]
@@ -86,16 +86,16 @@ theorem nano_sub (b u n : Nat) (h : u + n ≤ b) :
   omega
 
 /-- one `AllowN` at time 0 with rate 1: admitted iff the key's charge stays within the burst -/
-theorem cl_allow (c : Opts) (hl : c.limit = 1) (cl : ClientLimiter) (hopts : cl.opts = c.setDefault)
-    (used : Addr → Nat) (h : Charged c cl used) (a : Addr) (n : Nat) :
-    ((cl.allowN a 0 n).1 = true ↔ used (mask cl.opts a) + n ≤ specBurst c) ∧
-    Charged c (cl.allowN a 0 n).2
-      (fun k => if k = mask cl.opts a ∧ (cl.allowN a 0 n).1 = true then used k + n else used k) := by
+theorem cl_allowAt (c : Opts) (hl : c.limit = 1) (cl : ClientLimiter) (hopts : cl.opts = c.setDefault)
+    (used : Addr → Nat) (h : ChargedK c cl used) (a : Addr) (n : Nat) :
+    ((cl.allowNAt a 0 n).1 = true ↔ used (mask cl.opts a) + n ≤ specBurst c) ∧
+    ChargedK c (cl.allowNAt a 0 n).2
+      (fun k => if k = mask cl.opts a ∧ (cl.allowNAt a 0 n).1 = true then used k + n else used k) := by
   have hL : cl.limit = 1 := by
     rw [limit_of_opts c cl hopts]; simp [specLimit, hl]
   have hB := burst_of_opts c cl hopts
   obtain ⟨hu, hA⟩ := h (mask cl.opts a)
-  cases hd : (cl.allowN a 0 n).1 with
+  cases hd : (cl.allowNAt a 0 n).1 with
   | true =>
     have hd' := hd
     rw [ClientLimiter.allowN_fst] at hd'
@@ -141,6 +141,21 @@ theorem cl_allow (c : Opts) (hl : c.limit = 1) (cl : ClientLimiter) (hopts : cl.
     · have hk' : mask cl.opts a ≠ k := fun e => hk e.symm
       rw [ClientLimiter.bucketOf_allowN_other _ _ _ _ _ hk']
       exact h k
+
+/-- all of a listener run happens at one instant, so no entry's clock is ahead -/
+def Charged (c : Opts) (cl : ClientLimiter) (used : Addr → Nat) : Prop := cl.SeenLe 0 ∧ ChargedK c cl used
+
+theorem charged_new (c : Opts) (hs : saneBurst c = true) : Charged c (ClientLimiter.new c) (fun _ => 0) :=
+  ⟨ClientLimiter.seenLe_new c 0, chargedK_new c hs⟩
+
+theorem cl_allow (c : Opts) (hl : c.limit = 1) (cl : ClientLimiter) (hopts : cl.opts = c.setDefault)
+    (used : Addr → Nat) (h : Charged c cl used) (a : Addr) (n : Nat) :
+    ((cl.allowN a 0 n).1 = true ↔ used (mask cl.opts a) + n ≤ specBurst c) ∧
+    Charged c (cl.allowN a 0 n).2
+      (fun k => if k = mask cl.opts a ∧ (cl.allowN a 0 n).1 = true then used k + n else used k) := by
+  rw [cl.allowN_of_seenLe h.1 (Nat.le_refl 0)]
+  have hs := cl_allowAt c hl cl hopts used h.2 a n
+  exact ⟨hs.1, cl.seenLe_allowNAt h.1 (Nat.le_refl 0) a n, hs.2⟩
 
 /-- the shape of the resource limiter of a listener run: no global limit, one client limiter -/
 def LRel (c : Opts) (l : ResLimiter) (u : Usage) : Prop :=
@@ -223,7 +238,7 @@ theorem attempt_spec (c : Opts) (hl : c.limit = 1) (l : ResLimiter) (u : Usage) 
         simp only [attempt, hadm, hnok, if_false]
         cases p <;> simp [Point.onRefused]
       have hch'' : Charged c cl' used := by
-        intro k; have := hch' k; simpa [hokv] using this
+        refine ⟨hch'.1, fun k => ?_⟩; have := hch'.2 k; simpa [hokv] using this
       have hr := hrest u (by rw [hatt.2]; exact ⟨hg', cl', used, hcl', hopts', hch'', hbr⟩)
       rw [hatt.1]
       simp only [atomsSpec, ha, if_false, Bool.false_eq_true, hr, Bool.and_true, decide_eq_true_eq]
@@ -287,7 +302,7 @@ theorem direct_spec (c : Opts) (hl : c.limit = 1) (l : ResLimiter) (u : Usage) (
       have hnok : ¬ (limiterAllowN l a 0 n).1 = .ok := by rw [hok, hokv]; simp
       have hgt : ¬ used (mask c.setDefault a) + n ≤ specBurst c := by rw [← hokiff, hokv]; simp
       have hch'' : Charged c cl' used := by
-        intro k; have := hch' k; simpa [hokv] using this
+        refine ⟨hch'.1, fun k => ?_⟩; have := hch'.2 k; simpa [hokv] using this
       have hr := hrest u ⟨hg', cl', used, hcl', hopts', hch'', hbr⟩
       simp only [atomsSpec, ha, if_false, hnok, decide_false, Bool.false_eq_true, hr, Bool.and_true, decide_eq_true_eq]
       omega
@@ -347,6 +362,8 @@ theorem opAtoms_spec (c : Opts) (hl : c.limit = 1) (op : LOp) (l : ResLimiter) (
   | tcp a k => exact connOp_spec c hl .tcpConn .tcpQuery a k l u rest h hrest
   | http a k => exact connOp_spec c hl .httpConn .httpQuery a k l u rest h hrest
   | quic a k => exact connOp_spec c hl .quicConn .quicQuery a k l u rest h hrest
+  | gnet a k => exact connOp_spec c hl .gnetConn .gnetQuery a k l u rest h hrest
+  | fasthttp a k => exact connOp_spec c hl .fasthttpConn .fasthttpQuery a k l u rest h hrest
   | direct a n =>
     simp only [opAtoms, List.cons_append, List.nil_append] at hrest ⊢
     exact direct_spec c hl l u h a n rest hrest
